@@ -45,8 +45,8 @@ fn tb(f: &FF) -> Vec<usize> {
 }
 
 fn check(t: &mut Tape, ctx: &mut Ctx) -> CheckResult {
-    let maxlen = if ctx.tier == Tier::Quick { 8 } else { 14 };
-    let maxcod = 8;
+    let maxlen = ctx.mlen(if ctx.tier == Tier::Quick { 8 } else { 14 });
+    let maxcod = ctx.mlen(8);
     match t.choice(9) {
         0 => compose(t, ctx, maxlen, maxcod),
         1 => constructors(t, ctx, maxlen, maxcod),
